@@ -68,6 +68,9 @@ structure MState where
   reg : Reg → Word
   entry : Reg → Word
   addr : String → Word
+  /-- memory, one word per address (word-granular: the memory layer of the proof speaks about
+      aligned `lw`/`sw` only) -/
+  mem : Word → Word := fun _ => 0#32
 
 /-- the concrete meaning of the three claim kinds the property speaks about -/
 def claimHolds (s : MState) (r : Reg) : AVal → Prop
